@@ -308,7 +308,27 @@ def check_C15(run):
              acts=['write', 'delete', 'restart'] + LIFE_ALL[:8], preds=('always', 'ifactive'), nkeys=2,
              restarts_set=store.restarts(dmgs=('keep', 'lose')), simulate=300 if q else 6000, workers=1 if q else 8),
     ]
-    return store_check(run, mc, suites)
+
+    def concurrent_counters(run, eng):
+        # the counters at the quiescence of concurrent sessions with lifecycle calls: every blob file is a counted blob
+        # and next_blob_id is the id after the highest one in the directory
+        for i, (clients, ops, rt, life) in enumerate([(16, 60 if q else 300, 'mt', 150), (24, 40 if q else 200, 'mt', 300), (12, 60 if q else 300, 'ct', 150)]):
+            h = dict(rt=rt, ks=8, bloom='off', group=2, seed=run.seed * 10 + i, wait=True)
+            out = os.path.join(run.work, 'cnt-%d.out' % i)
+            cmd = [os.path.join(BIN, 'conc'), '--cfg', json.dumps(h), '--clients', str(clients), '--ops', str(ops), '--keys', '8',
+                   '--out', os.path.join(run.work, 'cnt-%d.conc' % i), '--sessions', '2', '--rounds', '6', '--lifecycle', str(life)]
+            rc = subprocess.run(cmd, stdout=open(out, 'w'), stderr=open(out + '.err', 'w')).returncode
+            if rc != 0:
+                raise ToolError('concurrent driver failed (rc=%s, %s)' % (rc, out))
+            for line in open(out, errors='replace'):
+                if line.startswith('MISMATCH '):
+                    rec = json.loads(line[9:])
+                    m = rec['mismatches'][0]
+                    if m['kind'] == 'accounting':
+                        run.violation('C15', rec, 'counters at the quiescence of a concurrent session: %s' % json.dumps(m['got']))
+            eng.replayed += 1
+        run.log('counters compared at the quiescence of 3 concurrent runs')
+    return store_check(run, mc, suites, extra=concurrent_counters)
 
 
 
@@ -589,6 +609,10 @@ def check_C11(run):
              sample=(1, 150) if q else (1, 4)),
         dict(name='fault-2k', consts=dict(Keys='{1, 2}', MaxTs='2'), genlen=5,
              acts=['write', 'delete', 'close_active', 'create_active'], nkeys=2, sample=(1, 5000) if q else (1, 40)),
+        # faults in a second session: the last blob of the first session is the active blob again (reopened file)
+        dict(name='fault-reopen', consts=dict(Keys='{1}', MaxTs='2'), genlen=4,
+             acts=['write', 'delete', 'restart', 'close_active'], restarts_set=store.restarts(gs=(True,), lazies=(False,), dmgs=('keep',)), nkeys=1,
+             sample=(1, 8) if q else (1, 1)),
     ]
     total_exec = 0
     by_plan = {}
@@ -616,6 +640,8 @@ def check_C11(run):
             cmd = [os.path.join(BIN, 'replay'), '--cfg', json.dumps(h), '--nkeys', str(nkeys), '--faults-out', tr]
             if not q:
                 cmd.append('--dense')
+            if s['name'] == 'fault-reopen':
+                cmd.append('--arm-after-restart')
             procs.append((subprocess.Popen(cmd, stdin=open(files[i].name), stdout=open(out, 'w'), stderr=open(out + '.err', 'w')), out, tr, h))
         mism = []
         for p, out, tr, h in procs:
@@ -1042,6 +1068,10 @@ def check_C08(run):
         dict(name='ct-rot-16', clients=16, ops=30 if q else 120, keys=6, cfg=dict(rt='ct', ks=8, bloom='off', group=2, max_recs=25)),
         dict(name='mt-life-24', clients=24, ops=40 if q else 200, keys=8, cfg=dict(rt='mt', ks=8, bloom='small', group=2), lifecycle=100),
         dict(name='ct-life-16', clients=16, ops=50 if q else 250, keys=6, cfg=dict(rt='ct', ks=8, bloom='off', group=3, max_recs=30), lifecycle=80),
+        # the default mode of the library (duplicates not allowed: every write first asks whether the key is there) with
+        # lifecycle calls; only termination and the blob files are judged here (a skipped duplicate write has no commit)
+        dict(name='mt-nodup-life-24', clients=24, ops=60 if q else 300, keys=40, cfg=dict(rt='mt', ks=8, bloom='small', group=2, allow_dup=False),
+             lifecycle=150, skip_trace=True, deadline=60),
         # one client closes the active blob, waits for its index dump and restores it, again and again, while the others read
         dict(name='mt-restore-12', clients=12, ops=150 if q else 800, keys=12, cfg=dict(rt='mt', ks=8, bloom='small', group=2), restore=True),
         dict(name='ct-1100', clients=1100, ops=2, keys=20, cfg=dict(rt='ct', ks=8, bloom='off', group=8, max_recs=5), deadline=45),
@@ -1064,6 +1094,9 @@ def check_C08(run):
             if line.startswith('MISMATCH '):
                 rec = json.loads(line[9:])
                 m = rec['mismatches'][0]
+                if m['kind'] == 'accounting':
+                    run.notes.append('counters at quiescence of %s (C15): %s' % (rn['name'], json.dumps(m['got'])))
+                    continue
                 facts = dict(kind=m['kind'], rt=h['rt'], clients=rn['clients'])
                 text = 'concurrent run %s (%d clients, %s): %s: %s' % (rn['name'], rn['clients'], h['rt'], m['kind'], str(m['got'])[:300])
                 kf = match_known('C08', facts)
@@ -1080,7 +1113,7 @@ def check_C08(run):
                 events += res['events']
         if rc != 0 or not ok:
             raise ToolError('concurrent driver failed rc=%s (%s)' % (rc, out))
-        if not os.path.exists(tr) or os.path.getsize(tr) == 0:
+        if not os.path.exists(tr) or os.path.getsize(tr) == 0 or rn.get('skip_trace'):
             continue
         r = run.tlc('TraceConc', 'SPECIFICATION TraceSpec\nPOSTCONDITION TraceAccepted\nCHECK_DEADLOCK FALSE\n', 'tc-' + rn['name'], workers=1,
                     timeout=3000, java_opts='-Xss1g -Dtlc2.tool.queue.IStateQueue=StateDeque', env_extra={'TRACE': tr}, heap='8g')
@@ -1097,7 +1130,15 @@ def check_C08(run):
             ev = json.loads(lines[at - 1])
             ctx = [json.loads(x) for x in lines[max(0, at - 40):at]]
             related = [e for e in ctx if e.get('opid') == ev.get('opid') or e.get('k') == ev.get('k')]
-            run.violation('C08', dict(kind='conc-trace', run=rn, harness_cfg=h, rejected_event=ev, related_events=related[-25:]),
+            # everything the rejected key went through, for the replay file (the recording itself is scratch)
+            keyhist = [e for e in (json.loads(x) for x in lines[:at]) if e.get('k') == ev.get('k') or e.get('ev') in ('activate', 'reopen', 'reset')
+                       or e.get('opid') == ev.get('opid')]
+            inv = next((e for e in keyhist if e.get('ev') == 'inv' and e.get('opid') == ev.get('opid')), None)
+            if inv:
+                keyhist = [e for e in (json.loads(x) for x in lines[:at]) if e.get('k') == inv.get('k') or e.get('ev') in ('activate', 'reopen', 'reset')
+                           or e.get('opid') in set(x.get('opid') for x in (json.loads(y) for y in lines[:at]) if x.get('k') == inv.get('k'))]
+            related = keyhist[-400:] + related[-25:]
+            run.violation('C08', dict(kind='conc-trace', run=rn, harness_cfg=h, rejected_event=ev, related_events=related),
                           'concurrent run %s: event %d is not explained by any linearization: %s' % (rn['name'], at, json.dumps(ev)[:300]))
         elif len(run.samples) < 3:
             run.samples.append(dict(run=rn['name'], clients=rn['clients'], first_events=[json.loads(x) for x in open(tr).read().splitlines()[1:6]]))
